@@ -262,6 +262,23 @@ def materialise(ip, st, view, sort):
     st.assume(EQ(reg.l_len(t), view.len))
     el = reg.lst_elem[sort]
     if view.items is not None:
+        try:
+            # a list display of known length has a canonical term: the same values give the same term
+            from .builtins_ import elem_term
+            terms = [elem_term(ip, st, coerce_elem(ip, it, el), el) for it in view.items]
+            reg.need(el)
+            d = "|dflt:%s|" % el
+            if not any(n == d for n, _ in reg.const_decls):
+                reg.const_decls.append((d, el))
+            arr = "((as const (Array Int %s)) %s)" % (el, d)
+            for k, x in enumerate(terms):
+                arr = "(store %s %d %s)" % (arr, k, x.s)
+            reg.const_decls.pop() if False else None
+            reg._unused = None
+            # drop the fresh constant declared above: the canonical term replaces it
+            return T("(mk_%s %s %d)" % (sort, arr, len(terms)), sort)
+        except Exception:
+            pass
         for k, it in enumerate(view.items):
             st.assume(ip.py_eq(st, ip.wrap(reg.l_get(t, I(k))), coerce_elem(ip, it, el)))
     else:
@@ -488,6 +505,9 @@ def apply_contract(ip, st, c, args, kws):
         env2["out"] = ip.lst_view(out_t)
         res = ip.new_cell(st, IterCell(ip.lst_view(out_t), I(0), name=None))
         env2["result"] = res
+    elif case.result_alias is not None:
+        res = env2[case.result_alias]
+        env2["result"] = res
     elif case.result is not None:
         res = ip.make(case.result, "res_" + case.simple, st)
         env2["result"] = res
@@ -662,7 +682,11 @@ def flow_remaining_term(ip, st, flow):
         if t is not None and lit_int(cell.cursor) == 0 and t.sort == sort:
             return t
         rest = View(SUB(src.len, cell.cursor), lambda i: src.get(ADD(cell.cursor, i)))
-        return materialise(ip, st, rest, sort)
+        m = materialise(ip, st, rest, sort)
+        if t is not None and t.sort == sort and lit_int(cell.cursor) is None:
+            # an untouched iterator delivers exactly its content term (keeps term identity for denotations)
+            return ITE(EQ(cell.cursor, I(0)), t, m)
+        return m
     view = ip.as_view(st, flow)
     t = getattr(view, "term", None)
     if t is not None and t.sort == sort:
@@ -724,7 +748,10 @@ def _sf_pulled(ip, e, st):
 
 def _sf_content(ip, e, st):
     """content(flow): the whole sequence the input iterator delivers (ghost)"""
-    return _iter_cell(ip, st, ip.ev1(e.args[0], st)).src
+    c = _iter_cell(ip, st, ip.ev1(e.args[0], st))
+    if getattr(c, "live", None) is not None:
+        return ip.lst_view(ip.deref(st, c.live))
+    return c.src
 
 
 def _sf_rest(ip, e, st):
